@@ -61,13 +61,16 @@ D(r, k, tag, why) == <<"D", Rec[r].id, k, tag, why>>
 
 Safe(c) == c.unsafe = 0 /\ c.mutUnsafe = 0
 
+Min(a, b) == IF a < b THEN a ELSE b
+Max(a, b) == IF a > b THEN a ELSE b
+
 (* generator state after an event: keep `kept` cells, push the logged kinds
    (hook kind codes are abstracted on the way in) *)
 MemoAdds(e) == {<<e.memo[j][1], Abs(e.memo[j][2])>> : j \in {x \in 1..Len(e.memo) : e.memo[x][2] # 255}}
 RECURSIVE LastMarkIn(_, _)
 LastMarkIn(p, k) == IF k = 0 THEN 0 ELSE IF p[k] = 0 THEN k ELSE LastMarkIn(p, k - 1)
 GsApply(g, e) ==
-    [stk |-> SubSeq(g.stk, 1, e.kept) \o AbsSeq(e.push),
+    [stk |-> SubSeq(g.stk, 1, Min(e.kept, Len(g.stk))) \o AbsSeq(e.push),
      m |-> LET pm == LastMarkIn(e.push, Len(e.push)) IN
            IF pm > 0 THEN e.kept + pm
            ELSE IF g.m <= e.kept THEN g.m
@@ -86,8 +89,6 @@ MirrorFrom(g, r, from) ==
     /\ Len(g.stk) = Len(r.stk)
     /\ \A k \in (from + 1)..Len(g.stk) : Compat(g.stk[k], r.stk[k])
 
-Min(a, b) == IF a < b THEN a ELSE b
-Max(a, b) == IF a > b THEN a ELSE b
 
 BitOf(mask, j) == (mask[((j - 1) \div 24) + 1] \div (2 ^ ((j - 1) % 24))) % 2 = 1
 MaskSet(mask) == {OpBytes[j] : j \in {x \in 1..Len(OpBytes) : BitOf(mask, x)}}
@@ -168,7 +169,10 @@ StepEvent ==
        /\ st' = IF e.ph = PH_begin THEN StInit
                 ELSE IF emitting /\ ~cnt.skip /\ ~broken /\ lexd'.known THEN RefStep(st, lexd'.op, lexd'.arg)
                 ELSE Quiet(st)
-       /\ IF cnt.skip THEN
+       /\ IF e.kept > Len(gs.stk) THEN
+             /\ msgs' = <<D(r, k, "hook", "event keeps more cells than the simulated stack held (events missing or out of order)")>>
+             /\ broken' = TRUE /\ UNCHANGED cnt
+          ELSE IF cnt.skip THEN
              /\ msgs' = <<>> /\ UNCHANGED <<broken, cnt>>
           ELSE IF e.ph = PH_begin THEN
              /\ broken' = FALSE
